@@ -10,7 +10,7 @@ from . import weave
 from .rustlex import ExtractError
 
 ROOT = os.path.dirname(os.path.dirname(os.path.abspath(__file__)))
-WORK = os.path.join(ROOT, "work")
+WORK = os.environ.get("VERIF_WORK") or os.path.join(ROOT, "work")
 CLAUSE_KW = r"requires|ensures|invariant_except_break|invariant|decreases|recommends|opens_invariants|no_unwind|returns"
 
 
